@@ -1,5 +1,10 @@
 import ZCV.Model.Conv
 import ZCV.Lemmas.Except
+import ZCV.Lemmas.Handlers
+import ZCV.Lemmas.HandlersSpec
+import ZCV.Lemmas.HandlersText
+import ZCV.Lemmas.HandlersCall
+import ZCV.Lemmas.HandlersDemo
 namespace ZCV.Props.C16
 open ZCV ZCV.Cfg
 
@@ -20,5 +25,381 @@ theorem C16_stop_appends_own_entries (st st' : LS) (ty : Str) (nm : Option Str) 
     · simp at h
     · simp only [pure, Except.pure, Except.ok.injEq] at h
       exact ⟨v, hs, hr, by rw [← h]⟩
+
+open ZCV.Conf
+
+/-! ## the handler list is the post-order of the handler-bearing items -/
+
+/-- `loadTreeH` (the tree-driven loader returning the configuration AND the handler list, assembled as `Cfg.load`
+    assembles it) is `loadTree` when the handler list is forgotten: everything C01/C02 say about `loadTree` is about
+    the first component of `loadTreeH`. -/
+theorem C16_loadTreeH_value (conv : Conv) (s : Schema) (items : List Item) :
+    (loadTreeH conv s items).map (·.1) = loadTree conv s items :=
+  loadTreeH_value conv s items
+
+/-- **The composite handler list is the post-order of the handler-bearing items.**  For every well-formed schema, every
+    datatype family and every tree (any size, any nesting depth): the loader accepts the tree iff it conforms, and then
+    the handler list it returns is `handlersOf` of the top-level container — for each section in file order (the order
+    in which sections are closed) that section's own `handlersOf` recursively, then the container's OWN handler-bearing
+    items in schema order, each with the value `denote` gives that attribute — followed, last, by the schema-level
+    handler with the configuration object itself (when the schema has a handler). -/
+theorem C16_handlers_postorder (conv : Conv) (s : Schema) (items : List Item)
+    (hs : schemaOK s = true) (ht : tyCanon s items = true) :
+    (loadTreeH conv s items).toOption =
+      (denote conv s items).map fun v =>
+        (v, handlersOf conv s s.top items ++ (match s.handler with | some h => [(h, v)] | none => [])) := by
+  rw [loadTreeH_eq conv s items hs ht]
+  cases hd : denote conv s items with
+  | none => rfl
+  | some v =>
+    simp only [Option.map_some, docHandlers, hd]
+    cases s.handler <;> rfl
+
+/-- the same, read from an accepted load: the handler list IS the post-order list (and the value IS `denote`) -/
+theorem C16_accepted_handlers (conv : Conv) (s : Schema) (items : List Item)
+    (hs : schemaOK s = true) (ht : tyCanon s items = true) (v : Val) (hh : List (Str × Val))
+    (h : loadTreeH conv s items = .ok (v, hh)) :
+    denote conv s items = some v ∧
+      hh = handlersOf conv s s.top items ++ (match s.handler with | some h => [(h, v)] | none => []) := by
+  have e := C16_handlers_postorder conv s items hs ht
+  rw [h] at e
+  cases hd : denote conv s items with
+  | none => rw [hd] at e; cases e
+  | some v' =>
+    rw [hd] at e
+    simp only [Except.toOption, Option.map_some, Option.some.injEq, Prod.mk.injEq] at e
+    obtain ⟨e1, e2⟩ := e
+    subst e1
+    exact ⟨rfl, e2⟩
+
+/-- the same for configuration TEXT (no `%import`, no overrides): the handler object returned with the configuration
+    of an accepted text holds the post-order list of the tree the parser builds from the text.  (`hlow`: lower-casing
+    is idempotent, a fact about the generated Unicode table; `hkeys`: type names are stored lower-cased.) -/
+theorem C16_text_handlers_postorder (conv : Conv) (env : Env) (pkgs : Str → Pkg) (s : Schema) (url : Option Str)
+    (lines : List Str) (r : LoadResult) (hs : schemaOK s = true) (hlow : ∀ x : Str, lower (lower x) = lower x)
+    (hkeys : ∀ p ∈ s.types, lower p.1 = p.1)
+    (hni : ∀ l ∈ lines, NoImportLine l) (hres : ∀ u ls, env.res u = some ls → ∀ l ∈ ls, NoImportLine l)
+    (h : load conv env pkgs s url lines [] = .ok r) :
+    ∃ items, treeOf env url lines = .ok items ∧ denote conv s items = some r.value ∧
+      r.handlers =
+        handlersOf conv s s.top items ++ (match s.handler with | some h => [(h, r.value)] | none => []) := by
+  obtain ⟨items, htree, hc, hl⟩ := load_ok_loadTreeH conv env pkgs s url lines hs hlow hkeys hni hres r h
+  obtain ⟨h1, h2⟩ := C16_accepted_handlers conv s items hs hc r.value r.handlers hl
+  exact ⟨items, htree, h1, h2⟩
+
+/-! ## its length -/
+
+/-- **`len(handler)`**: the handler list of an accepted tree has exactly one entry per handler-bearing schema item the
+    text instantiates (`nHandled`: for every section of the text, at every depth, the handler-bearing children of its
+    type; those of the schema itself; one more for a schema-level handler) — a number that depends on the schema and
+    the shape of the text only, not on any value. -/
+theorem C16_len (conv : Conv) (s : Schema) (items : List Item)
+    (hs : schemaOK s = true) (ht : tyCanon s items = true) (v : Val) (hh : List (Str × Val))
+    (h : loadTreeH conv s items = .ok (v, hh)) : hh.length = nHandled s items := by
+  obtain ⟨h1, h2⟩ := loadTreeH_handlers conv s items hs ht v hh h
+  rw [h2, docHandlers_length conv s items v h1]
+
+/-- the same for TEXT -/
+theorem C16_text_len (conv : Conv) (env : Env) (pkgs : Str → Pkg) (s : Schema) (url : Option Str)
+    (lines : List Str) (r : LoadResult) (hs : schemaOK s = true) (hlow : ∀ x : Str, lower (lower x) = lower x)
+    (hkeys : ∀ p ∈ s.types, lower p.1 = p.1)
+    (hni : ∀ l ∈ lines, NoImportLine l) (hres : ∀ u ls, env.res u = some ls → ∀ l ∈ ls, NoImportLine l)
+    (h : load conv env pkgs s url lines [] = .ok r) :
+    ∃ items, treeOf env url lines = .ok items ∧ r.handlers.length = nHandled s items := by
+  obtain ⟨items, htree, hc, hl⟩ := load_ok_loadTreeH conv env pkgs s url lines hs hlow hkeys hni hres r h
+  exact ⟨items, htree, C16_len conv s items hs hc r.value r.handlers hl⟩
+
+/-! ## the values are the tree's values -/
+
+/-- **Each entry's value is the value the value tree holds for that item.**  For any container of the text (the
+    document, or a section at any depth) that conforms to its type `t`: the container's value is a section value whose
+    attribute names are `t`'s children's, in schema order, and the container's own entries in the handler list are,
+    position by position, the handler-bearing children of `t` with the value stored at the same position of that
+    section value.  (The section value is the one `denote` builds for the section before the section's own datatype is
+    applied to it: with the default `null` section datatype it is the section object of the tree itself.) -/
+theorem C16_values_are_tree_values (conv : Conv) (s : Schema) (t : SType) (nm : Option Str) (items : List Item) (v : Val)
+    (h : containerVal conv s t nm items (itemVals conv s items) = some v) :
+    ∃ attrs, v = Val.sect (t.name.getD []) nm attrs ∧ attrs.map (·.1) = t.children.map (·.2.attr) ∧
+      ownHandlers conv s t items =
+        (t.children.zip attrs).filterMap fun ca => ca.1.2.handler.map fun h => (h, ca.2.2) :=
+  ownHandlers_of_value conv s t nm items v h
+
+/-- the same by attribute NAME, for a type of a well-formed schema (attribute names are distinct): the entry of a
+    handler-bearing child `c` is `(c's handler, the value found under c's attribute in the section value)` -/
+theorem C16_values_by_attribute (conv : Conv) (s : Schema) (t : SType) (hT : stypeOK s t = true) (nm : Option Str)
+    (items : List Item) (v : Val) (h : containerVal conv s t nm items (itemVals conv s items) = some v) :
+    ∃ attrs, v = Val.sect (t.name.getD []) nm attrs ∧
+      ownHandlers conv s t items =
+        t.children.filterMap fun c => c.2.handler.bind fun h => (attrs.lookup c.2.attr).map fun x => (h, x) :=
+  ownHandlers_lookup conv s t (stypeOK_prop s t hT) nm items v h
+
+/-- the document's own entries are read off the top-level section value of which the configuration is the image under
+    the schema's datatype; the schema-level entry holds the configuration itself (see `C16_handlers_postorder`) -/
+theorem C16_top_values (conv : Conv) (s : Schema) (items : List Item) (v : Val) (h : denote conv s items = some v) :
+    ∃ attrs, (conv.sect s.top.datatype (Val.sect (s.top.name.getD []) none attrs)).toOption = some v ∧
+      attrs.map (·.1) = s.top.children.map (·.2.attr) ∧
+      ownHandlers conv s s.top items =
+        (s.top.children.zip attrs).filterMap fun ca => ca.1.2.handler.map fun h => (h, ca.2.2) := by
+  unfold denote at h
+  cases hc : containerVal conv s s.top none items (itemVals conv s items) with
+  | none => rw [hc] at h; cases h
+  | some v0 =>
+    rw [hc] at h
+    obtain ⟨attrs, h1, h2, h3⟩ := ownHandlers_of_value conv s s.top none items v0 hc
+    subst h1
+    exact ⟨attrs, h, h2, h3⟩
+
+/-! ## non-vacuity: a schema with handlers at every level and a text instantiating them -/
+
+section demo
+open ZCV.Demo16
+
+/-- the hypotheses of `C16_handlers_postorder` hold for a conforming text: the loader accepts it, and the handler names
+    are the two sections' `p` entries first (file order), then the document's own `k` and `ss`, the schema handler last -/
+example : ((loadTreeH demoConv demoSchema demoItems).toOption.map fun r => r.2.map (·.1)) =
+    some [['h', 'p'], ['h', 'p'], ['h', 'k'], ['h', 's'], ['h', 'a']] := by
+  rw [C16_handlers_postorder demoConv demoSchema demoItems demo_schemaOK demo_tyCanon]
+  decide +kernel
+
+/-- the hypotheses of `C16_len` hold: the loader returns something, and it has 5 entries -/
+example : ∃ v hh, loadTreeH demoConv demoSchema demoItems = .ok (v, hh) ∧ hh.length = 5 := by
+  have e := C16_handlers_postorder demoConv demoSchema demoItems demo_schemaOK demo_tyCanon
+  have hd : (denote demoConv demoSchema demoItems).isSome = true := by decide +kernel
+  cases hl : loadTreeH demoConv demoSchema demoItems with
+  | error x =>
+    rw [hl] at e
+    cases hden : denote demoConv demoSchema demoItems with
+    | none => rw [hden] at hd; cases hd
+    | some v => rw [hden] at e; cases e
+  | ok r =>
+    obtain ⟨v, hh⟩ := r
+    refine ⟨v, hh, rfl, ?_⟩
+    rw [C16_len demoConv demoSchema demoItems demo_schemaOK demo_tyCanon v hh hl]
+    decide +kernel
+
+/-- the hypothesis of `C16_values_are_tree_values` holds for the document container of the demo -/
+example : (containerVal demoConv demoSchema demoSchema.top none demoItems (itemVals demoConv demoSchema demoItems)).isSome
+    = true := by decide +kernel
+
+end demo
+
+/-! ## calling the composite handler
+
+`callHandlers` (in `ZCV/Lemmas/HandlersCall.lean`) is a small pure model of `CompositeHandler.__call__`
+(`ZConfig/loader.py`) that is HAND-WRITTEN IN THE PROOF FILES: it is not part of `ZCV/Model`, the driver does not run
+it, and it is tied to the code only by the exploration of the C16 check (`harness/zcv/props/c16.py`), which calls the
+real handler object with complete / incomplete / None-containing / case-variant-duplicate maps and recording
+callables.  `hs` is ANY handler list (in particular the one of `C16_handlers_postorder`); the handler map is a list
+of `(name, some callable-id | none)` items; the result is the outcome together with the log of the calls made. -/
+
+open ZCV.Call
+
+/-- **A mapped-to-None entry is skipped, everything else is called exactly once, in order.**  If every supplied name
+    is a valid basic-key, no two supplied names normalise to the same key, and every handler name of the list is
+    supplied (after normalisation) — `cb h` being what is supplied for `h`, a callable or None — then the call
+    succeeds and the log of calls is the handler list in order, each entry delivered once to its callable with its own
+    value, the entries mapped to None left out.  (Model of `__call__` hand-written in the proof files, see above.) -/
+theorem C16_none_skipped (hs : List (Str × Val)) (hm : HMap) (cb : Str → Option Nat)
+    (hv : Valid hm) (hn : ((keyed hm).map (·.1)).Nodup)
+    (hc : ∀ e ∈ hs, ∃ p ∈ hm, DT.basicKey p.1 = .ok e.1 ∧ p.2 = cb e.1) :
+    callHandlers hs hm = { err := none, log := hs.filterMap fun e => (cb e.1).map fun f => (f, e.2) } := by
+  unfold callHandlers
+  rw [(normMap_nil_iff hm (keyed hm)).mpr ⟨hv, hn, rfl⟩]
+  simp only
+  have hmem : ∀ e ∈ hs, (e.1, cb e.1) ∈ keyed hm := fun e he => (mem_keyed hm e.1 (cb e.1)).mpr (hc e he)
+  have hL : (hs.filterMap fun e => if (keyed hm).any (·.1 == e.1) then none else some e.1) = [] := by
+    rw [List.filterMap_eq_nil_iff]
+    intro e he
+    rw [any_of_mem (keyed hm) e.1 (cb e.1) (hmem e he)]
+    rfl
+  rw [hL]
+  simp only [List.isEmpty_nil, Bool.not_true, Bool.false_eq_true, if_false, CallResult.mk.injEq, true_and]
+  apply Conf.filterMap_congr'
+  intro e he
+  rw [dget_of_mem (keyed hm) e.1 (cb e.1) hn (hmem e he)]
+  cases cb e.1 <;> rfl
+
+/-- **A complete map without None: every entry is delivered exactly once, in order.**  Under the hypotheses of
+    `C16_none_skipped` with a callable `g h` supplied for every handler name `h`: the log of calls is the handler list
+    itself, entry by entry — same length, same order, the i-th call handing the i-th entry's value to the callable
+    supplied for the i-th entry's name. -/
+theorem C16_call_exactly_once (hs : List (Str × Val)) (hm : HMap) (g : Str → Nat)
+    (hv : Valid hm) (hn : ((keyed hm).map (·.1)).Nodup)
+    (hc : ∀ e ∈ hs, ∃ p ∈ hm, DT.basicKey p.1 = .ok e.1 ∧ p.2 = some (g e.1)) :
+    callHandlers hs hm = { err := none, log := hs.map fun e => (g e.1, e.2) } := by
+  rw [C16_none_skipped hs hm (fun h => some (g h)) hv hn hc]
+  simp only [Option.map_some, CallResult.mk.injEq, true_and]
+  induction hs with
+  | nil => rfl
+  | cons e l ih =>
+    rw [List.filterMap_cons, List.map_cons]
+    simp only
+    rw [ih (fun e he => hc e (List.mem_cons_of_mem _ he))]
+
+/-- whenever the call raises, nothing has been called -/
+theorem C16_error_empty_log (hs : List (Str × Val)) (hm : HMap) (h : (callHandlers hs hm).err.isSome = true) :
+    (callHandlers hs hm).log = [] := by
+  unfold callHandlers at h ⊢
+  cases hnm : normMap [] hm with
+  | error e => rfl
+  | ok d =>
+    rw [hnm] at h
+    simp only at h ⊢
+    split
+    · rfl
+    · rename_i hL
+      rw [if_neg hL] at h
+      cases h
+
+/-- **All or nothing.**  If some handler name of the list is not supplied (no supplied name normalises to it), or two
+    of the supplied items have names that normalise to the same basic-key, the call raises and NOTHING has been called
+    (the log is empty) — whatever else the map contains, and in whatever order. -/
+theorem C16_all_or_nothing (hs : List (Str × Val)) (hm : HMap)
+    (h : (∃ e ∈ hs, ∀ p ∈ hm, DT.basicKey p.1 ≠ .ok e.1) ∨
+         (∃ a p b q c n, hm = a ++ p :: (b ++ q :: c) ∧ DT.basicKey p.1 = .ok n ∧ DT.basicKey q.1 = .ok n)) :
+    (callHandlers hs hm).err.isSome = true ∧ (callHandlers hs hm).log = [] := by
+  have herr : (callHandlers hs hm).err.isSome = true := by
+    unfold callHandlers
+    cases hnm : normMap [] hm with
+    | error e => rfl
+    | ok d =>
+      obtain ⟨hv, hn, hd⟩ := (normMap_nil_iff hm d).mp hnm
+      subst hd
+      rcases h with ⟨e, he, hmiss⟩ | ⟨a, p, b, q, c, n, hhm, hp, hq⟩
+      · simp only
+        have hne : (hs.filterMap fun e => if (keyed hm).any (·.1 == e.1) then none else some e.1) ≠ [] := by
+          intro hnil
+          rw [List.filterMap_eq_nil_iff] at hnil
+          have := hnil e he
+          by_cases hany : (keyed hm).any (·.1 == e.1) = true
+          · rw [List.any_eq_true] at hany
+            obtain ⟨x, hx, hxe⟩ := hany
+            obtain ⟨p, hp, hk, _⟩ := (mem_keyed hm x.1 x.2).mp hx
+            rw [beq_iff_eq.mp hxe] at hk
+            exact hmiss p hp hk
+          · rw [if_neg hany] at this
+            cases this
+        have : (!(hs.filterMap fun e => if (keyed hm).any (·.1 == e.1) then none else some e.1).isEmpty) = true := by
+          cases hl : (hs.filterMap fun e => if (keyed hm).any (·.1 == e.1) then none else some e.1) with
+          | nil => exact absurd hl hne
+          | cons x l => rfl
+        rw [if_pos this]
+        rfl
+      · exfalso
+        subst hhm
+        have hk : keyed (a ++ p :: (b ++ q :: c)) = keyed a ++ (n, p.2) :: (keyed b ++ (n, q.2) :: keyed c) := by
+          unfold keyed
+          rw [List.filterMap_append, List.filterMap_cons, List.filterMap_append, List.filterMap_cons]
+          simp only [hp, hq]
+        rw [hk] at hn
+        simp only [List.map_append, List.map_cons] at hn
+        have := (List.nodup_append.mp hn).2.1
+        rw [List.nodup_cons] at this
+        exact this.1 (List.mem_append_right _ List.mem_cons_self)
+  exact ⟨herr, C16_error_empty_log hs hm herr⟩
+
+/-- sharper, for a map of valid names: a missing handler name is reported as "undefined handlers" (a configuration
+    error listing every missing entry's name, in list order), duplicates as "not unique" (a configuration error naming
+    one of the supplied names); in both cases nothing has been called. -/
+theorem C16_refusals_are_configuration_errors (hs : List (Str × Val)) (hm : HMap) (hv : Valid hm)
+    (h : (callHandlers hs hm).err.isSome = true) :
+    (∃ e, (callHandlers hs hm).err = some e ∧ e.isCfg = true) ∧ (callHandlers hs hm).log = [] := by
+  refine ⟨?_, C16_error_empty_log hs hm h⟩
+  unfold callHandlers at h ⊢
+  cases hnm : normMap [] hm with
+  | error e =>
+    obtain ⟨p, _, he⟩ := normMap_error_valid hm [] e hv hnm
+    exact ⟨e, rfl, by rw [he]; rfl⟩
+  | ok d =>
+    rw [hnm] at h
+    simp only at h ⊢
+    split
+    · exact ⟨_, rfl, rfl⟩
+    · rename_i hL
+      rw [if_neg hL] at h
+      cases h
+
+/-- exactly when the call goes through: all supplied names are valid basic-keys, pairwise distinct after
+    normalisation, and every handler name of the list is among them -/
+theorem C16_call_ok_iff (hs : List (Str × Val)) (hm : HMap) :
+    (callHandlers hs hm).err = none ↔
+      Valid hm ∧ ((keyed hm).map (·.1)).Nodup ∧ ∀ e ∈ hs, e.1 ∈ (keyed hm).map (·.1) := by
+  constructor
+  · intro h
+    unfold callHandlers at h
+    cases hnm : normMap [] hm with
+    | error e => rw [hnm] at h; cases h
+    | ok d =>
+      rw [hnm] at h
+      obtain ⟨hv, hn, hd⟩ := (normMap_nil_iff hm d).mp hnm
+      subst hd
+      refine ⟨hv, hn, ?_⟩
+      intro e he
+      simp only at h
+      split at h
+      · cases h
+      · rename_i hL
+        have hnil : (hs.filterMap fun e => if (keyed hm).any (·.1 == e.1) then none else some e.1) = [] := by
+          cases hl : (hs.filterMap fun e => if (keyed hm).any (·.1 == e.1) then none else some e.1) with
+          | nil => rfl
+          | cons x l => rw [hl] at hL; exact absurd rfl hL
+        rw [List.filterMap_eq_nil_iff] at hnil
+        have := hnil e he
+        by_cases hany : (keyed hm).any (·.1 == e.1) = true
+        · rw [List.any_eq_true] at hany
+          obtain ⟨x, hx, hxe⟩ := hany
+          rw [← beq_iff_eq.mp hxe]
+          exact List.mem_map_of_mem hx
+        · rw [if_neg hany] at this
+          cases this
+  · intro ⟨hv, hn, hc⟩
+    have hc' : ∀ e ∈ hs, ∃ p ∈ hm, DT.basicKey p.1 = .ok e.1 ∧ p.2 = ((dget (keyed hm) e.1).getD none) := by
+      intro e he
+      obtain ⟨x, hx, hxe⟩ := List.mem_map.mp (hc e he)
+      obtain ⟨p, hp, hk, hp2⟩ := (mem_keyed hm x.1 x.2).mp hx
+      refine ⟨p, hp, by rw [hk, hxe], ?_⟩
+      have : dget (keyed hm) e.1 = some x.2 := by
+        rw [← hxe]
+        exact dget_of_mem (keyed hm) x.1 x.2 hn hx
+      rw [this, hp2]
+      rfl
+    rw [C16_none_skipped hs hm (fun h => (dget (keyed hm) h).getD none) hv hn hc']
+
+/-! non-vacuity: a complete map with a case-variant name and a None; a missing name; case-variant duplicates -/
+
+section demoCall
+open ZCV.Demo16
+/-- complete map, case-variant names: three calls, in list order, `hp`'s callable twice -/
+example : callHandlers demoList [(['H', 'p'], some 7), (['h', 'K'], some 8)] =
+    { err := none, log := [(7, .int 1), (8, .int 2), (7, .int 3)] } := by
+  simp [callHandlers, normMap, bk1, bk2, dget, demoList]
+/-- `hk` mapped to None: skipped -/
+example : callHandlers demoList [(['H', 'p'], some 7), (['h', 'K'], none)] =
+    { err := none, log := [(7, .int 1), (7, .int 3)] } := by
+  simp [callHandlers, normMap, bk1, bk2, dget, demoList]
+/-- the hypotheses of `C16_call_exactly_once` are satisfiable -/
+example : Valid [(['H', 'p'], some 7), (['h', 'K'], some 8)] ∧
+    ((keyed [(['H', 'p'], some 7), (['h', 'K'], some 8)]).map (·.1)).Nodup := by
+  refine ⟨?_, ?_⟩
+  · intro p hp
+    simp only [List.mem_cons, List.not_mem_nil, or_false] at hp
+    rcases hp with rfl | rfl
+    · exact ⟨_, bk1⟩
+    · exact ⟨_, bk2⟩
+  · simp [keyed, bk1, bk2]
+/-- `hk` missing: refused, nothing called (first alternative of `C16_all_or_nothing`) -/
+example : ∃ e ∈ demoList, ∀ p ∈ [((['H', 'p'] : Str), some 7)], DT.basicKey p.1 ≠ .ok e.1 := by
+  refine ⟨(['h', 'k'], .int 2), by simp [demoList], ?_⟩
+  intro p hp
+  simp only [List.mem_cons, List.not_mem_nil, or_false] at hp
+  subst hp
+  rw [bk1]
+  simp
+/-- `Hp` and `hP` both supplied: refused (second alternative of `C16_all_or_nothing`) -/
+example : (callHandlers demoList [(['H', 'p'], some 7), (['h', 'K'], some 8), (['h', 'P'], none)]).err.isSome = true ∧
+    (callHandlers demoList [(['H', 'p'], some 7), (['h', 'K'], some 8), (['h', 'P'], none)]).log = [] :=
+  C16_all_or_nothing _ _ (.inr ⟨[], (['H', 'p'], some 7), [(['h', 'K'], some 8)], (['h', 'P'], none), [], ['h', 'p'],
+    rfl, bk1, bk3⟩)
+end demoCall
 
 end ZCV.Props.C16
